@@ -25,7 +25,7 @@ Expect(s, ev) ==
              \* dispatch: where the accelerated path is available and asked for, the AEAD handed out IS the accelerated
              \* one (a cipher that no longer offers its GCM to crypto/cipher silently gets the library's generic,
              \* table-driven mode: same outputs, different - data-dependent - memory accesses)
-             ok3 == (good /\ ev.err = "" /\ ev.path = "asm" /\ ev.asm_available) => ev.kind = "*sm4.sm4GcmAsm"
+             ok3 == (good /\ ev.err = "" /\ ev.path = "asm" /\ ev.asm_available) => ~ev.stdlib_mode
          IN [st |-> IF good /\ ev.err = ""
                     THEN Put(s, ev.h, [rk |-> S4!RoundKeys(ev.key), ts |-> ev.tagsize])
                     ELSE s,
